@@ -19,7 +19,7 @@ RULE = (
 ASSUMPTIONS = [
     "instances are counted independently of the library: distinct non-zero labels for instance input, reference BFS components for semantic input; predictions merged by a many-to-one / merge matcher count once",
 ]
-MINIMUM = {"C02.checked": 3000, "C02.lists_judged": 2000, "f:C02.decision_rejected": 200, "C02.direct_checked": 300}
+MINIMUM = {"C02.decision_values_judged": 500, "f:C02.boundary": 50, "C02.checked": 3000, "C02.lists_judged": 2000, "f:C02.decision_rejected": 200, "C02.direct_checked": 300}
 BUDGET_S = {"quick": 200, "thorough": 2400}
 
 TINY = {"t1d4": ((4,), 3, 5), "t2x2": ((2, 2), 3, 5)}
@@ -34,6 +34,8 @@ def cases(tier, seed):
     for i in range(1500 if tier == "quick" else 40000):
         yield {"fam": "rand", "i": i}
     yield {"fam": "readme", "i": 0}
+    for i in range(120 if tier == "quick" else 2000):
+        yield {"fam": "boundary", "i": i}
     for i in range(600 if tier == "quick" else 20000):
         yield {"fam": "direct", "i": i}
 
@@ -137,6 +139,24 @@ def run(case, ctx):
         r2 = evaluate(ctx, pred, refa, {"input": "MATCHED_INSTANCE", "matcher": None, "dm": "IOU", "dt": 0.5}, b"readme")
         if r2 and r2["tp"] == 1:
             ctx.count("f:C02.decision_rejected")
+        return
+    if fam == "boundary":
+        # label values / instance counts at the 255|256 and 65535|65536 boundaries (dtype choice, fresh labels)
+        from vf.props import c04
+
+        if i % 3 < 2:
+            pred, refa = c04.boundary_pair(ctx.seed, i)
+            cfg = {"input": "UNMATCHED_INSTANCE", "matcher": {"kind": ["naive", "merge"][i % 2], "metric": "IOU", "thr": 0.5, "m2o": bool(i % 4 == 0)}}
+        else:
+            n_ref = [255, 256, 257, 254][i % 4]
+            n_pred = [3, 256, 255, 257][(i // 4) % 4]
+            refa = np.zeros(2 * max(n_ref, n_pred) + 2, dtype=[np.uint8, np.int32, np.uint16][i % 3])
+            pred = np.zeros_like(refa)
+            refa[1 : 2 * n_ref : 2] = 1
+            pred[1 : 2 * n_pred : 2] = 1
+            cfg = {"input": "SEMANTIC", "backend": [None, "cc3d", "scipy"][i % 3], "matcher": {"kind": "naive", "metric": "IOU", "thr": 0.5}}
+        ctx.count("f:C02.boundary")
+        evaluate(ctx, pred, refa, cfg, gen.arr_key(pred, refa))
         return
     r = gen.rng(ctx.seed, "c02", i)
     if fam in TINY:
